@@ -75,6 +75,13 @@ func run(c *vf.Ctx) {
 				}
 			}
 			outs[i] = h
+			if h.Inconcl != "" {
+				if lb, e := os.ReadFile(logP); e == nil {
+					keep := filepath.Join(vf.Out, "replays", fmt.Sprintf("C25-%d-case%d-worker.log", c.Seed, i))
+					os.MkdirAll(filepath.Dir(keep), 0755)
+					os.WriteFile(keep, []byte(tailStr(string(lb), 2<<20)), 0644)
+				}
+			}
 			if keep := os.Getenv("C25_KEEP"); keep != "" {
 				os.MkdirAll(keep, 0755)
 				os.WriteFile(filepath.Join(keep, fmt.Sprintf("h%d.json", i)), b, 0644)
@@ -479,6 +486,9 @@ func judge(c *vf.Ctx, i int, h *histOut) {
 	sort.Slice(recs, func(a, b int) bool { return recs[a].Seq < recs[b].Seq })
 	tenurePairs, staleBodies := 0, 0
 	for _, rc := range recs {
+		if rc.Aborted {
+			continue
+		}
 		if rc.Bad != "" {
 			viol("payload-unparsable", fmt.Sprintf("payload from %s: %s", rc.Node, rc.Bad), rc)
 			continue
